@@ -27,7 +27,10 @@ fn main() {
         if loc.contains("e_query/") || loc.contains("vmon/") {
             eprintln!("HARNESS-PANIC at {loc}: {info}");
         } else if std::env::var("VERIF_SHOW_PANICS").is_ok() {
-            eprintln!("panic (captured) at {loc}");
+            eprintln!("panic (captured) on thread {:?} at {loc}: {msg}", std::thread::current().name());
+            if std::env::var("VERIF_SHOW_PANICS").map(|v| v == "2").unwrap_or(false) {
+                eprintln!("{}", std::backtrace::Backtrace::force_capture());
+            }
         }
     }));
     let code = match args.prop.as_str() {
